@@ -53,7 +53,7 @@ def main(tier):
         cats = sorted(n for n in dir(jaxtyping) if isinstance(getattr(jaxtyping, n), type)
                       and issubclass(getattr(jaxtyping, n), jaxtyping.AbstractDtype) and n != "AbstractDtype")
         rng = random.Random(chk.seed)
-        dims = ["a", "b a", "_ 3", "... a", "*v", "", "#a", "#d=3", "*d=v", "d=#a b"]
+        dims = ["a", "b a", "_ 3", "... a", "*v", "", "#a", "#d=3", "*d=v", "d=#a b", "?a", "*?v b"]
         anns = []          # (desc, d1 (inner), d2 (outer), s1, s2, annotation)
         for c in cats:
             for s in (dims if tier == "thorough" else rng.sample(dims, 3)):
